@@ -27,6 +27,8 @@ REQUIRED_PROBES = ("renders_checked", "tasks_completed", "gc_runs", "conf_droppe
 
 REAL_VS_STUB = {'real': ['ak.color, ak.ppobj, ak.hdoc, ak.ghist (report building and formatting), ak.mcaller_http (help of method callers)'], 'stub': ['id() as seen by ak.ppobj/ak.color/ak.hdoc/ak.ghist -> simulated allocator with adversarial re-use', 'cyclic GC timing -> gc.disable() + scheduled gc.collect()', 'the git repository behind ProjectRepo -> deterministic in-memory fake (sim/fakegit.py)', 'process-global state -> one fresh forked process per run, one pristine forked process per reference rendering', 'ssl.SSLContext.load_default_certs -> no-op; logging disabled']}
 
+ASSUMPTIONS = ['the pristine reference runs the same code without history: a defect identical with and without history is invisible to the no-memory oracle (it is a C09/C11/C12-type defect)', 'the harness escape scanner ESC [ digits ; : m', 'renderings overlapped by a registration into their configuration are excluded (counted as renders_indeterminate)', 'failures reproduced by the pristine process are input-dependent and not reported (counted as ref_errors_agreed)']
+
 RULE = ("each run = one seeded history of 15-60 ops over 2-4 colour configurations (explicit nested inits overriding "
         "component defaults, pending parents registered later, no_color variants), 2-4 printable objects (pretty-"
         "printer values, tables with shared enum field types / custom and sub palettes / break-by / limits, record "
@@ -470,7 +472,10 @@ class World:
             raise Violation("O1", "escape-in-no_color-output", f"pristine no_color rendering of {kind} contains an escape")
         # O3: no memory
         if ref_c is not None:
-            if text != ref_c["text"]:
+            # lines yielded one by one may differ from the joined whole in escape structure only (a
+            # zero-length coloured run, two equal-coloured runs not merged): compare what is shown
+            same = (sgr.canon(text) == sgr.canon(ref_c["text"])) if how == "lines" else (text == ref_c["text"])
+            if not same:
                 raise Violation("O3", "differs-from-pristine-rendering",
                                 f"{kind} ({how}) after history differs from the same rendering in a fresh process: "
                                 + first_diff(text, ref_c["text"]))
@@ -591,7 +596,7 @@ def _do_op(w, trace, op, n, k, log, color):
                     lines = w.guarded("iterate-lines", t.ctx(), lambda: [rw.ro.line_to_str(x) for x in rw.ro.line_iter(t.r)])
                     text = "\n".join(lines)
                     whole = w.guarded("whole-text", t.ctx(), rw.ro.whole_text, t.r, "str")
-                    if text != whole:
+                    if sgr.canon(text) != sgr.canon(whole):
                         raise Violation("O4", "lines-differ-from-whole",
                                         f"{kind}: joined lines differ from the whole text of the same result: "
                                         + first_diff(text, whole))
